@@ -310,3 +310,59 @@ Proof.
   - rewrite distance_self. lra.
   - rb; cbn [mpos mstep with_step]; rewrite distance_axpy; try lra; try assumption.
 Qed.
+
+(** ** Appliers with scripted helpers *)
+
+(** the linear-propagator instance of PropagationApplier factors through the scripted form *)
+Lemma propagate_apply_factored i (s : simR) :
+  let boundary := Rleb (in_next i) (mstep s) in
+  let dist := if boundary then in_next i else mstep s in
+  mstep (propagate_apply i s) = mstep (propagation_result_apply dist boundary s)
+  /\ mpost (propagate_apply i s) = mpost (propagation_result_apply dist boundary s).
+Proof.
+  cbn zeta. unfold propagate_apply, propagation_result_apply. numR.
+  unfold Reqb. destruct (Req_EM_T (mstep s) 0); [split; reflexivity|].
+  destruct (Rleb_spec (in_next i) (mstep s)); cbn [mstep mpost with_step].
+  - split; reflexivity.
+  - destruct (Rltb_spec (mstep s) (mstep s)); [lra|]. split; reflexivity.
+Qed.
+
+(** a boundary hit ALWAYS hands the track to the boundary action with the travelled
+    distance as step length -- also when that distance equals the pre-step limit *)
+Theorem propagation_boundary_sets_action d (s : simR) :
+  mstep s <> 0 ->
+  let s' := propagation_result_apply d true s in
+  mpost s' = ABoundary /\ mstep s' = d.
+Proof.
+  intros Hz. cbn zeta. unfold propagation_result_apply. numR.
+  unfold Reqb. destruct (Req_EM_T (mstep s) 0); [contradiction|]. cbn. split; reflexivity.
+Qed.
+
+(** without a boundary the step is only ever shortened *)
+Theorem propagation_result_step_le d b (s : simR) :
+  (b = true -> d <= mstep s) ->
+  mstep (propagation_result_apply d b s) <= mstep s.
+Proof.
+  intros Hb. unfold propagation_result_apply. numR.
+  unfold Reqb. destruct (Req_EM_T (mstep s) 0); [lra|].
+  destruct b; [cbn; apply Hb; reflexivity|].
+  destruct (Rltb_spec d (mstep s)); cbn; lra.
+Qed.
+
+(** MSC: on a step for which MSC is not applicable, apply_step is NOT called and the step
+    length stays what pre-step chose, whatever the slot's stale msc_step holds; on an
+    applicable step it is called and restores that step's own true path *)
+Theorem msc_apply_only_after_limit t g (s : simR) (m : mscstep R) :
+  (let '(s1, m1) := msc_limit_act false t g s m in
+   msc_apply_act s1 m1 = (s, false))
+  /\ (mstat s = Alive -> 0 < g ->
+      let '(s1, m1) := msc_limit_act true t g s m in
+      snd (msc_apply_act s1 m1) = true /\ mstep (fst (msc_apply_act s1 m1)) = t).
+Proof.
+  split.
+  - unfold msc_limit_act, msc_apply_act. cbn [ms_geom]. numR.
+    destruct (mstat s); try reflexivity.
+    destruct (Rltb_spec 0 0); [lra|reflexivity].
+  - intros Ha Hg. unfold msc_limit_act, msc_apply_act. cbn [mstat with_step ms_geom ms_true].
+    rewrite Ha. numR. destruct (Rltb_spec 0 g); [|lra]. cbn. split; reflexivity.
+Qed.
